@@ -495,7 +495,14 @@ func (st *c01State) values(part int) {
 			}
 		}
 	case 2: // colours, ADJ, increments
-		for _, col := range domCol {
+		cols := append(append([]ivg.Color(nil), domCol...),
+			// beside the cube levels 00 40 80 c0 ff: the levels just below them
+			rgba(0x3f, 0x40, 0x7f, 0xff), rgba(0xbf, 0xbf, 0xbf, 0xff), rgba(0x00, 0x7f, 0xff, 0xff), rgba(0x41, 0x80, 0xc1, 0xff),
+			// nibble levels and their neighbours
+			rgba(0x11, 0x22, 0x33, 0x44), rgba(0x10, 0x22, 0x33, 0x44), rgba(0x12, 0x22, 0x33, 0x44),
+			// blends with equal operands, and naming the register they are stored in
+			ivg.BlendColor(0x40, 0x85, 0x85), ivg.BlendColor(0x00, 0x7c, 0x7c), ivg.BlendColor(0xff, 0xc3, 0xc3), ivg.BlendColor(0x80, 0xc0, 0x7f))
+		for _, col := range cols {
 			for adj := uint8(0); adj <= 6; adj++ {
 				st.forward([]rec.Call{{M: rec.MSetCReg, Adj: adj, C: col}}, false, 0, "colours")
 			}
